@@ -128,7 +128,7 @@ def contiguous_bounds(rng, vals):
 # --------------------------------------------------------------------------------------------
 # CF 1-D
 
-def cf1d(rng, *, ny=None, nx=None, bounds=None, as_coords=None, dim_names=None, min_len=2, bad_bounds=None, mixed_dtypes=None):
+def cf1d(rng, *, ny=None, nx=None, bounds=None, as_coords=None, dim_names=None, min_len=2, bad_bounds=None, mixed_dtypes=None, global_lon=False):
     ny = ny or rng.randint(min_len, 6)
     nx = nx or rng.randint(min_len, 6)
     if bounds is None:
@@ -140,6 +140,11 @@ def cf1d(rng, *, ny=None, nx=None, bounds=None, as_coords=None, dim_names=None, 
     ydim, xdim = dim_names
     lat = axis_values(rng, ny)
     lon = axis_values(rng, nx)
+    if global_lon:
+        # evenly spaced longitudes all the way round the globe (a global model): 360 / nx degrees apart
+        nx = nx if 360 % nx == 0 else 12
+        start = rng.choice([0.0, -180.0, 15.0, -172.5])
+        lon = [start + (360.0 / nx) * i for i in range(nx)]
     if mixed_dtypes in ('lon_int', 'lat_int'):
         # one axis in whole degrees stored as integers (coordinate and bounds), the other fractional float64
         start = rng.randint(-20, 20)
@@ -203,7 +208,8 @@ def cf1d(rng, *, ny=None, nx=None, bounds=None, as_coords=None, dim_names=None, 
         else:
             ds = xarray.Dataset(data_vars={**coordvars, **variables})
     spec['label'] = f'cf1d {ny}x{nx} bounds={bool(bounds)}' + (f' refused-bounds={bad_bounds}' if bad_bounds else '') + (
-        f' dtypes={mixed_dtypes}' if mixed_dtypes else '')
+        f' dtypes={mixed_dtypes}' if mixed_dtypes else '') + (' global' if global_lon else '')
+    spec['nx'] = nx
     spec['kinds'] = {'face': [ydim, xdim]}
     spec['kind_order'] = ['face']
     return DS('cf1d', ds, spec)
@@ -256,7 +262,7 @@ def hole_pattern(rng, ny, nx, kind=None):
     return holes, kind
 
 
-def cf2d(rng, *, ny=None, nx=None, bounds=None, holes=None, shoc_simple=False, as_coords=None, invalid=None, bad_bounds=None):
+def cf2d(rng, *, ny=None, nx=None, bounds=None, holes=None, shoc_simple=False, as_coords=None, invalid=None, bad_bounds=None, overlap=False):
     ny = ny or rng.randint(1, 5)
     nx = nx or rng.randint(1, 5)
     if bounds is None:
@@ -279,9 +285,11 @@ def cf2d(rng, *, ny=None, nx=None, bounds=None, holes=None, shoc_simple=False, a
         # explicit corner bounds: centre +- half steps, in the order (j-,i-), (j-,i+), (j+,i+), (j+,i-)
         lon_b = numpy.empty((ny, nx, 4))
         lat_b = numpy.empty((ny, nx, 4))
+        # footprints larger than the spacing (overlap=True): neighbouring cells overlap, as sensor footprints do
+        half = 0.75 if overlap else 0.5
         for c, (dj, di) in enumerate([(-1, -1), (-1, 1), (1, 1), (1, -1)]):
-            lon_b[:, :, c] = lon + (ax * di + bx * dj) / 2 / F8
-            lat_b[:, :, c] = lat + (ay * di + by * dj) / 2 / F8
+            lon_b[:, :, c] = lon + (ax * di + bx * dj) * half / F8
+            lat_b[:, :, c] = lat + (ay * di + by * dj) * half / F8
         lon_b[hole] = numpy.nan
         lat_b[hole] = numpy.nan
         if bad_bounds:
@@ -332,7 +340,7 @@ def cf2d(rng, *, ny=None, nx=None, bounds=None, holes=None, shoc_simple=False, a
         ds = xarray.Dataset(data_vars={**coordvars, **variables}, attrs=attrs)
     spec.update({'latname': latname, 'lonname': lonname, 'lat': lat, 'lon': lon, 'hole': hole,
                  'label': f'{"shoc_simple" if shoc_simple else "cf2d"} {ny}x{nx} bounds={bool(bounds)} holes={hole_kind}'
-                          + (f' refused-bounds={bad_bounds}' if bad_bounds else ''),
+                          + (f' refused-bounds={bad_bounds}' if bad_bounds else '') + (' overlapping' if overlap else ''),
                  'kinds': {'face': [ydim, xdim]}, 'kind_order': ['face']})
     return DS('shoc_simple' if shoc_simple else 'cf2d', ds, spec)
 
@@ -505,7 +513,9 @@ def derive_tables(rng, faces, shuffle_edges=True):
 
 def ugrid(rng, *, w=None, h=None, start_index=None, fill=None, transposed=None, supplied=None,
           edge_dim_declared=None, coords_as_coords=None, face_coords=None, mesh=None, variety=True,
-          invalid=None):
+          invalid=None, bare_zero_based=()):
+    # bare_zero_based: connectivity roles stored zero-based WITHOUT a start_index attribute (UGRID: a missing attribute means
+    # 0 for that variable) while the other tables carry the dataset's start_index
     nodes, faces = mesh if mesh is not None else lattice_mesh(rng, w, h, variety=variety)
     if invalid is None:
         invalid = rng.random() < 0.15
@@ -543,8 +553,9 @@ def ugrid(rng, *, w=None, h=None, start_index=None, fill=None, transposed=None, 
     def table(rows, width, dims, role, allow_transpose=True):
         """encode a ragged integer table"""
         need_fill = any(len(r) < width or None in r for r in rows)
-        attrs = {'cf_role': role, 'start_index': numpy.int32(start_index)}
-        if rng.random() < 0.3 and start_index == 0:
+        si = 0 if role.replace('_connectivity', '') in bare_zero_based else start_index
+        attrs = {'cf_role': role, 'start_index': numpy.int32(si)}
+        if role.replace('_connectivity', '') in bare_zero_based or (rng.random() < 0.3 and si == 0):
             attrs.pop('start_index')
         mode = fill if need_fill else rng.choice([fill, 'none'])
         if mode == 'nan':
@@ -552,13 +563,13 @@ def ugrid(rng, *, w=None, h=None, start_index=None, fill=None, transposed=None, 
             for r, row in enumerate(rows):
                 for c, v in enumerate(row):
                     if v is not None:
-                        arr[r, c] = v + start_index
+                        arr[r, c] = v + si
         else:
             arr = numpy.full((len(rows), width), FILL, dtype='i4')
             for r, row in enumerate(rows):
                 for c, v in enumerate(row):
                     if v is not None:
-                        arr[r, c] = v + start_index
+                        arr[r, c] = v + si
             if mode == 'attr':
                 attrs['_FillValue'] = numpy.int32(FILL)
         d = list(dims)
@@ -633,7 +644,7 @@ def ugrid(rng, *, w=None, h=None, start_index=None, fill=None, transposed=None, 
             'coords_as_coords': coords_as_coords, 'face_coords': face_coords, 'fx': fx, 'fy': fy,
             'nn': nn, 'nf': nf, 'ne': ne, 'maxn': maxn, 'uniform': uniform,
             'dims': {'face': fdim, 'node': ndim, 'edge': edim, 'max': mdim, 'two': two},
-            'label': f'ugrid nf={nf} nn={nn} maxn={maxn} si={start_index} fill={fill} T={transposed} '
+            'label': f'ugrid nf={nf} nn={nn} maxn={maxn} si={start_index}{"(bare 0: " + ",".join(sorted(bare_zero_based)) + ")" if bare_zero_based else ""} fill={fill} T={transposed} '
                      f'sup={sorted(supplied)} edim={"edge_dimension" in mesh_attrs} coords={coords_as_coords}',
             'kinds': kinds, 'kind_order': ['node', 'face'] + (['edge'] if has_edge_dim else [])}
     return DS('ugrid', ds, spec)
@@ -665,7 +676,7 @@ TIME_NAMES = {'shoc_standard': 't', 'shoc_simple': 'time'}
 
 
 def add_depth(rng, ds, *, dim='k', n=None, name=None, up=None, deep_first=None, positive=None, bounds=None,
-              second=None, marker=None, second_name=None):
+              second=None, marker=None, second_name=None, int_dtype=None):
     """Add a depth dimension with one (or two) coordinates.  The physical column is `phys` (eighths of a metre,
     positive down, surface first); the file stores it negated when `up` and reversed when `deep_first`.
     positive: 'attr' (attribute says up/down), 'none' (no positive attribute - the code guesses from the values).
@@ -710,6 +721,11 @@ def add_depth(rng, ds, *, dim='k', n=None, name=None, up=None, deep_first=None, 
         attrs['bounds'] = f'{name}_bnds'
         ds[f'{name}_bnds'] = xarray.DataArray(numpy.array(pairs, dtype='f8') / F8, dims=[dim, 'bnds2'])
     ds = ds.assign_coords({name: xarray.DataArray(numpy.array(vals, dtype='f8') / F8, dims=[dim], attrs=attrs)})
+    if int_dtype:
+        # whole numbers stored in an integer type (e.g. uint16 centimetres below the surface)
+        ds = ds.assign_coords({name: xarray.DataArray(numpy.array(vals).astype(int_dtype), dims=[dim], attrs=attrs)})
+        if bounds:
+            ds[f'{name}_bnds'] = xarray.DataArray(numpy.array(pairs).astype(int_dtype), dims=[dim, 'bnds2'])
     coords.append({'name': name, 'attr': attrs.get('positive'), 'vals': vals, 'bounds': pairs if bounds else None})
     if second:
         # a second coordinate on the same dimension (e.g. layer interfaces' mid-depth in another unit): same
